@@ -937,6 +937,28 @@ func registerMisc() {
 	ext("github.com/coreos/etcd/raft.StartNode", raftStart("StartNode"))
 	// strings.Builder's self-copy check goes through abi.NoEscape (unsafe); values are never copied mid-use here
 	ext("(*strings.Builder).copyCheck", noop)
+	// sort.Slice / sort.SliceStable go through reflectlite.Swapper; here: an in-place
+	// insertion sort (stable) that calls the interpreted less function on indexes
+	sortSlice := func(fr *frame, a []value) value {
+		var s []value
+		switch x := a[0].(type) {
+		case iface:
+			s, _ = x.v.([]value)
+		case []value:
+			s = x
+		}
+		for i := 1; i < len(s); i++ {
+			for j := i; j > 0; j-- {
+				if !truth(call(fr.i, fr, 0, a[1], []value{j, j - 1}), "sort.Slice less") {
+					break
+				}
+				s[j], s[j-1] = s[j-1], s[j]
+			}
+		}
+		return nil
+	}
+	ext("sort.Slice", sortSlice)
+	ext("sort.SliceStable", sortSlice)
 	ext("strings.Join", func(fr *frame, a []value) value {
 		var parts []string
 		for _, e := range a[0].([]value) {
